@@ -3,7 +3,7 @@
    0x46af6449, 32 trailing zero steps).  Spec: Spec/Crc32.v (textbook bit-serial register, polynomial
    0x04C11DB7, initial value 0xFFFFFFFF, MSB first, no reflection, no final XOR).
    This file holds only the statements; proofs live in Proofs/CrcRegister.v. *)
-From Gots Require Import Base.Prelude Model.Crc Spec.Crc32 Proofs.CrcRegister.
+From Gots Require Import Base.Prelude Model.Crc Spec.Crc32 Proofs.CrcRegister Proofs.CrcUnique.
 Local Open Scope N_scope.
 
 (* for EVERY byte string (no length bound, no side condition) the four bytes returned are the
@@ -39,6 +39,19 @@ Print Assumptions C13_compute_crc_residue.
 Theorem C13_emitted_section_residue_ok : forall body : bytes, Crc32.residue_ok (body ++ Crc.compute_crc body).
 Proof. exact emitted_section_residue_ok. Qed.
 Print Assumptions C13_emitted_section_residue_ok.
+
+(* receiver side, both directions: for every message and every four-byte trailer, the section passes the
+   receiver's check (register zero) exactly when the trailer is what ComputeCRC returns; so the check accepts
+   every section the library emits and rejects every section whose CRC field alone is damaged *)
+Theorem C13_residue_zero_iff : forall (bs : bytes) c0 c1 c2 c3, is_bytes [c0; c1; c2; c3] ->
+  (Crc32.residue_ok (bs ++ [c0; c1; c2; c3]) <-> [c0; c1; c2; c3] = Crc.compute_crc bs).
+Proof. exact compute_crc_unique. Qed.
+Print Assumptions C13_residue_zero_iff.
+
+(* the register always holds a 32-bit value *)
+Theorem C13_crc_lt : forall bs : bytes, Crc32.crc bs < 4294967296.
+Proof. exact crc_lt. Qed.
+Print Assumptions C13_crc_lt.
 
 (* non-vacuity / sanity of the specification: catalogue check value of CRC-32/MPEG-2 ("123456789" -> 0x0376E6E7),
    and the model on the same input *)
